@@ -40,9 +40,12 @@ func (w *World) pickPolicy() *Policy {
 func (w *World) doOp() {
 	w.opsLeft--
 	g := w.G
+	if w.hostile && w.C.Prob(2, 3) && w.doHostileOp() {
+		return
+	}
 	// weights: pods and policies dominate; the list order puts the plainest operation first
 	kinds := []string{"pod-labels", "pol-add", "pol-del", "pod-add", "pod-del", "pol-update", "pod-recreate", "sync", "ns-labels", "pod-ip"}
-	if w.F.CNI {
+	if w.F.CNI || w.conc {
 		kinds = append(kinds, "cni-add")
 	}
 	if w.F.IPChange {
@@ -124,8 +127,22 @@ func (w *World) doOp() {
 			w.note(kind)
 			return
 		case "cni-add":
-			p := w.pickPod(func(p *Pod) bool { return p.IP == "" && p.local() })
-			if p == nil {
+			p := w.pickPod(func(p *Pod) bool {
+				for _, c := range w.cniTasks {
+					if c.pod.key() == p.key() {
+						return false
+					}
+				}
+				return p.IP == "" && p.local()
+			})
+			if w.conc && p == nil && len(w.cl.Pods) < 10 {
+				// a fresh pod of this node whose sandbox is being set up
+				p = &Pod{NS: g.nsOf(w.cl), Name: fmt.Sprintf("p%d", g.podSeq), Labels: g.labels(podLabelKV, 2), Node: thisNode}
+				g.podSeq++
+				w.cl.Pods[p.key()] = p
+				w.mustCreate("pods", p.api())
+			}
+			if p == nil || (w.conc && len(w.cniTasks) >= maxConcurrentCNI) {
 				continue
 			}
 			// galaxy learns the address from the plugin result before the API does
@@ -135,7 +152,11 @@ func (w *World) doOp() {
 			inst := w.inst
 			t := w.S.Spawn("cni:"+p.key(), w.proc, func() { cniTask(inst, b) })
 			t.Tag = "cni"
-			w.cniPending = &withIP
+			if w.conc {
+				w.cniTasks = append(w.cniTasks, &cniInFlight{task: t, pod: &withIP})
+			} else {
+				w.cniPending = &withIP
+			}
 			w.note(kind)
 			return
 		case "pol-add":
@@ -182,6 +203,9 @@ func (w *World) doOp() {
 			w.note(kind)
 			return
 		case "sync":
+			if w.conc && w.alive(w.syncTask) {
+				continue // wait.Until runs one pass at a time
+			}
 			w.spawnSync(fmt.Sprintf("sync:periodic-%d", w.syncs))
 			w.note(kind)
 			return
